@@ -80,7 +80,10 @@ func foundationTable() map[string]foundation {
 		"lock-paired": {"lock-paired", "every Lock of a library mutex is released on all paths to the return", 4,
 			func(c *Ctx, sub *Report) { checkLockPaired(c, sub) }, []string{"C07/lock-paired"}, ""},
 		"ansi": {"ansi", "the escape-sequence pattern applied by the read loop cannot run across ESC or a line end and never cuts a complete sequence short", 2,
-			func(c *Ctx, sub *Report) { checkANSIPatternBounded(c, sub, "x/ansi"); checkANSINoShadow(c, sub, "x/ansi") }, []string{"x/ansi"}, ""},
+			func(c *Ctx, sub *Report) {
+				checkANSIPatternBounded(c, sub, "x/ansi")
+				checkANSINoShadow(c, sub, "x/ansi")
+			}, []string{"x/ansi"}, ""},
 	}
 }
 
